@@ -360,20 +360,22 @@ impl DigestProvider for EncryptedMessage {
 pub struct Compressed { _p: () }
 impl Compressed {
     pub uninterp spec fn digest_opt(&self) -> Option<Digest>;
-    // the data a Compressed inflates to
+    // the data a Compressed inflates to (meaningful when inflatable())
     pub uninterp spec fn inflated(&self) -> Seq<u8>;
+    // the compressed payload is not corrupt (uncompress succeeds)
+    pub uninterp spec fn inflatable(&self) -> bool;
     // [A-comp-has-digest]
     #[verifier::external_body]
     pub fn has_digest(&self) -> (r: bool) ensures r == self.digest_opt().is_some() { unimplemented!() }
     // [A-comp-from-uncompressed] keeps exactly the given digest; inflates back to the data (deflate round trip)
     #[verifier::external_body]
     pub fn from_uncompressed_data(data: Vec<u8>, digest: Option<Digest>) -> (r: Compressed)
-        ensures r.digest_opt() == digest, r.inflated() == data@
+        ensures r.digest_opt() == digest, r.inflated() == data@, r.inflatable()
     { unimplemented!() }
     // [A-comp-uncompress]
     #[verifier::external_body]
     pub fn uncompress(&self) -> (r: Result<Vec<u8>>)
-        ensures r matches Ok(d) ==> d@ == self.inflated()
+        ensures (r is Ok) == self.inflatable(), r matches Ok(d) ==> d@ == self.inflated()
     { unimplemented!() }
     // [A-comp-digest-ref-opt]
     #[verifier::external_body]
@@ -547,6 +549,16 @@ pub trait CBORTaggedDecodable: CBORTagged + Sized {
     spec fn decode_rel(c: CBOR, r: Result<Self>) -> bool;
     fn from_untagged_cbor(cbor: CBOR) -> (r: Result<Self>)
         ensures Self::decode_rel(cbor, r);
+    // default method of dcbor: CBOR::try_from_data(data) then from_tagged_cbor
+    #[verifier::external_body]
+    fn from_tagged_cbor_data(data: Vec<u8>) -> (r: Result<Self>)
+        ensures
+            (forall|c: CBOR| c.enc() != data@) ==> r is Err,
+            forall|c: CBOR| #![trigger c.enc()] c.enc() == data@ ==> {
+                &&& (*c.0 is Tagged && c.s_tag() == Self::tag_spec()) ==> Self::decode_rel(c.s_inner(), r)
+                &&& !(*c.0 is Tagged && c.s_tag() == Self::tag_spec()) ==> r is Err
+            },
+    { unimplemented!() }
     // default method of dcbor: checks the tag (any of cbor_tags()), then from_untagged_cbor(item)
     #[verifier::external_body]
     fn from_tagged_cbor(cbor: CBOR) -> (r: Result<Self>)
